@@ -26,6 +26,11 @@ theorem quiet_mAddFuel (n : Nat) (s : St) : quietPc s.procDict (mAddFuel n s).mp
           simpa using this
         · exact quiet_of_simple (by simp [setFut, brokenPath]) (by simp [setFut, mHolds]) (by simp [setFut])
 theorem quiet_mAdd (s : St) : quietPc s.procDict (mAdd s).mpc := quiet_mAddFuel _ s
+theorem quiet_mAddF (s : St) : quietPc s.procDict (mAddF s).mpc := by
+  rcases mAddF_mpc s with ⟨i, _, e⟩ | ⟨_, e, _⟩ | ⟨_, e, _⟩ <;> rw [e]
+  · exact quiet_of_simple rfl (fun _ => rfl) (by simp)
+  · exact ⟨rfl, fun _ => rfl, fun sn h => by simp at h; exact h.symm, fun q hq => by simp [poppedPc] at hq⟩
+  · exact quiet_of_simple rfl (fun _ => rfl) (by simp)
 theorem quiet_mAfterItem (s : St) : quietPc s.procDict (mAfterItem s).mpc := by
   unfold mAfterItem; split
   · exact quiet_of_simple rfl (fun _ => rfl) (by simp)
@@ -70,9 +75,9 @@ theorem quiet_mAfterFlag (s : St) (hn : s.procDict.Nodup) :
   · by_cases hp : s.pending = []
     · have h0 : mAfterFlag s = mJoinStart s := by unfold mAfterFlag; simp [hk, hp]
       rw [h0]; exact quiet_of_simple rfl (fun _ => rfl) (by simp [mJoinStart])
-    · have h0 : mAfterFlag s = mAdd s := by unfold mAfterFlag; simp [hk, hp]
+    · have h0 : mAfterFlag s = mAddF s := by unfold mAfterFlag; simp [hk, hp]
       rw [h0]
-      obtain ⟨h1, h2, h3, h4⟩ := quiet_mAdd s
+      obtain ⟨h1, h2, h3, h4⟩ := quiet_mAddF s
       exact ⟨h1, h2, by simpa using h3, fun q hq => ⟨by simpa using (h4 q hq).1, (h4 q hq).2⟩⟩
 theorem quiet_mSpawnLoop (s : St) : quietPc s.procDict (mSpawnLoop s).mpc := by
   unfold mSpawnLoop; split <;> exact quiet_of_simple rfl (fun _ => rfl) (by simp)
